@@ -46,6 +46,43 @@ impl Rng {
     }
 }
 
+fn covered(pat: &J, w: &J) -> bool {
+    let m = match pat {
+        J::Obj(m) => m,
+        _ => return false,
+    };
+    for (k, v) in m.iter() {
+        let got = match w.get(k) {
+            Some(g) => g,
+            None => return false,
+        };
+        match v {
+            J::Obj(_) => {
+                let x = match got {
+                    J::Num(x) => *x,
+                    _ => return false,
+                };
+                if let Some(J::Num(lo)) = v.get("min") {
+                    if x < *lo {
+                        return false;
+                    }
+                }
+                if let Some(J::Num(hi)) = v.get("max") {
+                    if x > *hi {
+                        return false;
+                    }
+                }
+            }
+            _ => {
+                if got.to_string() != v.to_string() {
+                    return false;
+                }
+            }
+        }
+    }
+    true
+}
+
 fn main() {
     std::panic::set_hook(Box::new(|_| {}));
     let args: Vec<String> = std::env::args().collect();
@@ -78,8 +115,15 @@ fn main() {
             let mut seed = 0u64;
             let mut ms = 10000u64;
             let mut i = 3;
+            // --exclude <json pattern>: inputs a listed known finding already covers (key -> value | {"min":n,"max":n})
+            let mut exclude: Vec<J> = vec![];
             while i + 1 < args.len() {
                 match args[i].as_str() {
+                    "--exclude" => {
+                        if let Ok(p) = json::parse(&args[i + 1]) {
+                            exclude.push(p);
+                        }
+                    }
                     "--seed" => seed = args[i + 1].parse().unwrap_or(0),
                     "--ms" => ms = args[i + 1].parse().unwrap_or(10000),
                     _ => {}
@@ -99,6 +143,9 @@ fn main() {
                     None => break,
                 };
                 n += 1;
+                if exclude.iter().any(|p| covered(p, &w)) {
+                    continue;
+                }
                 if let Err(e) = props::check(&w) {
                     let mut w = w;
                     if let J::Obj(ref mut m) = w {
